@@ -132,20 +132,31 @@ def impl_all(case):
 
 
 def gamma_tables(h, shape, rate):
-    """the values the special functions return for exactly the arguments gamma_to_natural uses"""
+    """the values the special functions return for exactly the arguments gamma_to_natural uses
+    (scipy gammainc / gamma / loggamma, exp, log, float power, and the numpy SCALAR square mn**2,
+    which goes through libm pow and is not always the rounded product)"""
     import scipy.special
     with warnings.catch_warnings():
         warnings.simplefilter("ignore")
-        C = float(np.exp(shape * np.log(rate) - scipy.special.loggamma(shape)))
-        gt, gam, pw = [], [], []
-        for j in (0, 1, 2):
-            sj = shape + j
-            gam.append((float(sj), float(scipy.special.gamma(sj))))
-            pw.append((float(rate), float(sj), float(rate ** sj)))
-            for b in h.coalescent_breaks:
-                x = rate * b
-                gt.append((float(sj), float(x), float(scipy.special.gammainc(sj, x))))
-    return gt, gam, pw, [(float(shape), float(rate), C)]
+        try:
+            Cn = np.exp(shape * np.log(rate) - scipy.special.loggamma(shape))
+            gt, gam, pw, cdf = [], [], [], []
+            cdf_breaks = np.append(h.coalescent_breaks, [np.inf])
+            for j in (0, 1, 2):
+                sj = shape + j
+                gam.append((float(sj), float(scipy.special.gamma(sj))))
+                pw.append((float(rate), float(sj), float(rate ** sj)))
+                for b in h.coalescent_breaks:
+                    x = rate * b
+                    gt.append((float(sj), float(x), float(scipy.special.gammainc(sj, x))))
+                cdf.append(Cn * scipy.special.gamma(sj) / rate ** sj * np.diff(scipy.special.gammainc(sj, rate * cdf_breaks)))
+            # mn exactly as demography.py:191-208 forms it (only to learn the argument of the scalar square)
+            mn_coef_0 = h.time_breaks - h.population_size * h.coalescent_breaks
+            mn = np.sum(h.population_size * cdf[1] + mn_coef_0 * cdf[0])
+            sq = [(float(mn), float(mn ** 2))]
+        except OverflowError:
+            return None
+    return gt, gam, pw, [(float(shape), float(rate), float(Cn))], sq
 
 
 def impl_gamma(h, shape, rate):
@@ -177,10 +188,10 @@ Fixpoint look2 (tb : list (float * float * float)) (a q : float) : float :=
   | [] => nan
   | (x, y, v) :: r => if PrimFloat.eqb x a && PrimFloat.eqb y q then v else look2 r a q
   end.
-Definition rung gt gam pw ct (pop brks : list float) (shape rate : float) :=
+Definition rung gt gam pw ct sq (pop brks : list float) (shape rate : float) :=
   match mk_history FNum pop brks with
   | None => None
-  | Some h => gamma_to_natural FNum (look2 gt) (look1 gam) (look2 pw) (look2 ct) h shape rate
+  | Some h => gamma_to_natural FNum (look2 gt) (look1 gam) (look2 pw) (look2 ct) (look1 sq) h shape rate
   end.
 """
 
@@ -209,9 +220,10 @@ def model_gamma(ctx, items):
         return clist(tb, lambda r: "(%s, %s, %s)" % (cfloat(r[0]), cfloat(r[1]), cfloat(r[2])))
     terms = []
     for it in items:
-        gt, gam, pw, ct = it["tabs"]
-        terms.append("rung %s %s %s %s %s %s %s %s" % (
-            t3(gt), clist(gam, lambda r: cpair(cfloat(r[0]), cfloat(r[1]))), t3(pw), t3(ct),
+        gt, gam, pw, ct, sq = it["tabs"]
+        p2 = lambda tb: clist(tb, lambda r: cpair(cfloat(r[0]), cfloat(r[1])))
+        terms.append("rung %s %s %s %s %s %s %s %s %s" % (
+            t3(gt), p2(gam), t3(pw), t3(ct), p2(sq),
             fl(it["pop"]), fl(it["brks"]), cfloat(it["shape"]), cfloat(it["rate"])))
     out = []
     for i in range(0, len(terms), 150):
@@ -415,7 +427,7 @@ def oracle_gamma(ctx, it, res, h):
         return
     shape, rate = it["shape"], it["rate"]
     if math.isnan(res[0]) or math.isnan(res[1]):
-        gt, gam, pw, ct = gamma_tables(h, shape, rate)
+        gt, gam, pw, ct, _sq = gamma_tables(h, shape, rate)
         factors = [v for _a, v in gam] + [v for _r, _s, v in pw] + [ct[0][2]]
         bad = any((not math.isfinite(v)) or v == 0.0 for v in factors)
         ctx.oracle_fail("gamma-nan:" + ("intermediate-factor-out-of-double-range" if bad else "other"),
@@ -513,6 +525,8 @@ def gamma_block(ctx, model_ok, cases, outs, n, n_quad):
               "quad": k < n_quad and c["style"] in ("near", "float") and shape <= 60 and len(c["pop"]) >= 2
               and max(c["pop"]) / min(c["pop"]) < 1e3}
         it["tabs"] = gamma_tables(h, it["shape"], it["rate"])
+        if it["tabs"] is None:
+            continue
         it["res"] = impl_gamma(h, it["shape"], it["rate"])
         items.append(it)
     # invalid parameters are rejected
